@@ -114,6 +114,8 @@ def cases(tier, seed):
                 if any(st.startswith("diff_") and variant(t, st) is None for st in (sa, sb)):
                     continue  # that near miss does not exist for this interface
                 yield dict(truth=truth, iface=t, states={others[0]: sa, others[1]: sb})
+                if t in (TRUTHS[2], TRUTHS[9], TRUTHS[12]) and sa in ("equivalent", "different", "missing") and sb in ("equivalent", "diff_default", "empty"):
+                    yield dict(truth=truth, iface=t, states={others[0]: sa, others[1]: sb}, no_word_wrap=True)
 
 
 def find_target(tree, kind):
@@ -151,10 +153,10 @@ def rest_dump(src, kind):
 RULES = {"class": {}, "function": dict(absent_default_is_none=True), "argparse_function": dict(ret_only_if_default=True)}
 
 
-def sync(d, truth):
+def sync(d, truth, no_word_wrap=False):
     import cdd.__main__
 
-    argv = ["sync", "--truth", truth]
+    argv = ["sync", "--truth", truth] + (["--no-word-wrap"] if no_word_wrap else [])
     for k in KINDS:
         flag = {"class": "--class", "function": "--function", "argparse_function": "--argparse-function"}[k]
         argv += [flag, os.path.join(d, FILES[k]), flag + "-name", TARGET_NAMES[k]]
@@ -184,6 +186,8 @@ def run(case):
     D = interface("different")
     viol = []
     base_ctx = dict(check="sync", truth=truth)
+    if case.get("no_word_wrap"):
+        base_ctx["no_word_wrap"] = True
     if len({("doc" in p) for p in T["params"].values()}) == 2:
         base_ctx["mixed_doc"] = True  # the truth documents some of its parameters and not others
 
@@ -212,7 +216,7 @@ def run(case):
         for rnd in (1, 2, 3):
             transitions += 1
             try:
-                sync(d, truth)
+                sync(d, truth, case.get("no_word_wrap", False))
             except BaseException as e:  # noqa
                 if isinstance(e, KeyboardInterrupt):
                     raise
